@@ -325,8 +325,13 @@ def check(run):
         run.violation("R2", at.where, "`discrete` is no longer mapped through the transform before being kept", key=key_of("C14-R2", "discrete"))
     # ---- R3
     h = ix.func("trimesh.path.path:Path.__hash__")
-    txt = ast.unparse(h.node)
-    ok = "self.vertices.__hash__()" in txt and "e._bytes() for e in self.entities" in txt
+    from ..accum import contributions, return_sources
+    srcs, reach = return_sources(h.node)
+    inside = {id(x) for e in srcs for x in ast.walk(e)}
+    has_vertices = any(ast.unparse(x) in ("self.vertices.__hash__()", "hash(self.vertices)") for e in srcs for x in ast.walk(e) if isinstance(x, ast.Call))
+    has_entities = any(c.iter == "self.entities" and c.elt in ("_1._bytes()", "[_1._bytes()]") and not c.filters
+                       and (id(c.node) in inside if c.acc is None else c.acc in reach) for c in contributions(h.node))
+    ok = has_vertices and has_entities
     run.instance("R3", h.where, "Path hash = vertices hash + bytes of every entity", ok)
     if not ok:
         run.violation("R3", h.where, "Path.__hash__ does not cover the vertex array and every entity", key=key_of("C14-R3", "path-hash"))
